@@ -293,6 +293,7 @@ DEFAULT_LOOP_RULES = [
     (r"written < size", lambda j: j.params.get("input_max", 3) + 2),
     (r"STRV_FOREACH", lambda j: j.params.get("strv_max", 3) + 2),
     (r"^fd_in_set ", 7),
+    (r"^reproc_drain ", lambda j: j.params.get("drain_iters", 8)),
     (r"num_sources|num_pipes", lambda j: 4 * j.params.get("n_sources", 1) + 2),
     (r"ARRAY_SIZE\((redirect|actions)\)", 4),
     (r"^(strlen|strcpy|strchr|strcmp|strncmp|memcpy|memset|memmove|wcslen|wcscpy|wcschr) ",
@@ -355,7 +356,7 @@ def classify(r, prop):
     if d.startswith("MODEL: "):
         return "model"
     if re.match(r"C\d\d: ", d):
-        return "tagged"
+        return "tagged" if d.startswith(prop + ": ") or prop == "ALL" else "othertag"
     if "unwinding assertion" in d or ".unwind." in name or "recursion" in d:
         return "unwind"
     if ".no-body." in name:
@@ -576,6 +577,8 @@ def run_job(prop, job, run_dir, want_functions=True):
             if kind == "cover":
                 info["covers"].append({"goal": d[7:], "reached": st == "FAILURE"})
                 continue
+            if kind == "othertag":
+                continue  # assertion of another property: compiled to nothing in this build
             if kind in ("builtin_other",):
                 # checks inside harness/model code: a failure is a harness bug
                 if st == "FAILURE":
@@ -610,7 +613,10 @@ def run_job(prop, job, run_dir, want_functions=True):
         exe = None
         for r in failed_real[:6]:
             pname = r.get("property")
-            cmd2 = cbmc_cmd(job, goto, ["--property", pname, "--trace"] + SOLVER_FLAGS.get(label, []))
+            # the trace is taken WITHOUT --slice-formula: the slicer drops choices that do not feed
+            # the assertion itself although assumptions on the path depend on them
+            cmd2 = [c for c in cbmc_cmd(job, goto, ["--property", pname, "--trace"] + SOLVER_FLAGS.get(label, []))
+                    if c != "--slice-formula"]
             rc2, so2, se2, w2 = sh(cmd2, timeout=job.timeout, mem_gb=job.mem_gb)
             p2 = parse_cbmc_json(so2)
             trace = None
